@@ -5,7 +5,7 @@ func init() {
 		info: PropInfo{
 			Bounds: []string{
 				"extended-ID checks: zoom quadruples (h1,v1,h2,v2) over a sample (quick 40, thorough all with zooms in {0,1,2,(9 thorough),10,25,26,35}, plus three 9-vs-10 quadruples in quick and |difference| arbitrary); all indices symbolic, both signs for f; both argument orders and the reflexive call in one harness",
-				"array forms: 0..2 x 0..2 elements; extended form with per-element zoom offsets on each axis chosen by five bit-mask pairs (equal, alternating, vertical-only, horizontal-only, crossed); tree form with mixed zooms inside a list in both orders",
+				"array forms: 0..2 x 0..2 elements; extended form with per-element zoom offsets on each axis chosen by five bit-mask pairs (equal, alternating, vertical-only, horizontal-only, crossed), plus one 2 x 2 case with zooms 5 and 15 inside a list (decimal texts that extend one another); tree form with mixed zooms inside a list in both orders",
 				"radix-tree checks: zoom pairs z1,z2 in 1..4 (quick) / 1..6 (thorough) with |z1-z2| <= 2, plus the sub-metre zooms 25..27 paired within +-1; the tree (multidimensional-radix-tree) is executed from its SSA, child tables indexed by symbolic branch paths use a hit/miss overlay model",
 			},
 			Outside: []string{"tree checks at zooms 7..24 and beyond 27 (depth-linear but each level adds solver work)", "lists longer than 2", "spatial IDs outside +-2^24 m (documented precondition)"},
@@ -38,6 +38,12 @@ func init() {
 						}
 					}
 				}
+			}
+			{
+				// zooms 5 and 15 inside one list (decimal texts "5" / "15"): 2 x 2 elements
+				in := mk("detector", "VerifC05ExtArrayZooms", cs("n1", 2, "n2", 2, "h0", 5, "v0", 5, "h1", 5, "v1", 5, "h2", 15, "v2", 15, "h3", 5, "v3", 15))
+				in.Unwind = 40
+				is = append(is, in)
 			}
 			for n1 := 0; n1 <= 2; n1++ {
 				for n2 := 0; n2 <= 2; n2++ {
